@@ -252,7 +252,13 @@ func formatCase(t *mon.T) {
 	if hasWidth {
 		w = fmt.Sprint(width)
 	}
-	format := "%" + flags + w + string(verb)
+	// a precision in the directive (users write %012.2f out of habit): Format
+	// documents that it has no effect, so everything else must stay as it is
+	prec := ""
+	if r.Chance(1, 4) {
+		prec = fmt.Sprintf(".%d", r.Intn(20))
+	}
+	format := "%" + flags + w + prec + string(verb)
 	got := fmt.Sprintf(format, a)
 	t.Eval()
 	t.Count("format/" + string(verb))
